@@ -173,7 +173,7 @@ def call_callable(I, fsv, args, kwargs, node):
             if f.name.startswith('contractfunc:'):
                 from .contract import apply_contract
                 con = I.registry.contract_for(f.name.split(':', 1)[1])
-                return apply_contract(I, con, [fsv] + list(args), kwargs, node)
+                return apply_contract(I, con, list(args), kwargs, node, func_sv=fsv)
             return call_builtin(I, f, args, kwargs, node)
     if k == 'cls':
         return construct(I, fsv.t, args, kwargs, node)
@@ -512,6 +512,10 @@ def b_int(I, slf, args, kw, node):
     if x.kind == 'bool':
         return mk_int(as_int_term(x))
     if x.kind == 'real':
+        from .ops import int_valued
+        iv = int_valued(x.t)
+        if iv is not None:
+            return mk_int(iv)
         # truncation toward zero
         fl = z3.ToInt(x.t)
         return mk_int(z3.If(x.t >= 0, fl, z3.If(z3.ToReal(fl) == x.t, fl, fl + 1)))
@@ -743,6 +747,9 @@ def b_abs(I, slf, args, kw, node):
 
 
 def b_is_integer(I, slf, args, kw, node):
+    from .ops import int_valued
+    if int_valued(slf.t) is not None:
+        return mk_bool(True)
     return mk_bool(real_is_int(slf.t))
 
 
